@@ -394,9 +394,15 @@ func execPipeChainB(t *hx.Toks, chain, batched bool) string {
 		}
 		close(fed)
 	}()
-	deadline := time.Now().Add(8 * time.Second)
+	// Quiescence is a CONDITION, not a pause: every streamed event has had its finalize-with-back, the feeder
+	// returned, and the pool's own counter is back to zero with nobody waiting (the pl.finalize trace point
+	// precedes eventPool.back, so the counter may lag the trace by a scheduling delay). The deadline is long
+	// (the liveness clause "in-use returns to zero when idle" is what is tested): what is reported after it
+	// is what was observed.
+	deadline := time.Now().Add(20 * time.Second)
 	feedDone := false
-	for time.Now().Before(deadline) {
+	var inUse, waiters int64
+	for {
 		select {
 		case <-fed:
 			feedDone = true
@@ -405,13 +411,15 @@ func execPipeChainB(t *hx.Toks, chain, batched bool) string {
 		mu.Lock()
 		b := backs
 		mu.Unlock()
-		if feedDone && b >= streamed {
+		inUse, waiters = pipeline.VerifPipelinePool(p)
+		if feedDone && b >= streamed && inUse == 0 && waiters == 0 {
 			break
 		}
-		time.Sleep(500 * time.Microsecond)
+		if time.Now().After(deadline) {
+			break
+		}
+		time.Sleep(300 * time.Microsecond)
 	}
-	time.Sleep(2 * time.Millisecond)
-	inUse, waiters := pipeline.VerifPipelinePool(p)
 	var sb strings.Builder
 	mu.Lock()
 	for i, k := range kinds {
